@@ -1901,4 +1901,172 @@ theorem gc_done_changes {c : Cfg} {tr : Nat → State} {act : Nat → Option Act
     have h1' : ((tr (K3 + j1)).bkt b).isOpen = false := h1
     rw [h1'] at this; cases this
 
+/-! ## from the request to the completed GC -/
+
+theorem exists_least (P : Nat → Prop) (h : ∃ j, P j) : ∃ j, P j ∧ ∀ i, i < j → ¬ P i := by
+  obtain ⟨j, hj⟩ := h
+  have key : ∀ m, (∃ i, i ≤ m ∧ P i) → ∃ j, P j ∧ ∀ i, i < j → ¬ P i := by
+    intro m
+    induction m with
+    | zero =>
+      intro ⟨i, hi, hp⟩
+      have : i = 0 := by omega
+      subst this
+      exact ⟨0, hp, fun i hi => absurd hi (Nat.not_lt_zero i)⟩
+    | succ m ih =>
+      intro ⟨i, hi, hp⟩
+      by_cases hm : ∃ i, i ≤ m ∧ P i
+      · exact ih hm
+      · have : i = m + 1 := by
+          apply Classical.byContradiction
+          intro hh
+          exact hm ⟨i, by omega, hp⟩
+        subst this
+        exact ⟨m + 1, hp, fun i hi hpi => hm ⟨i, by omega, hpi⟩⟩
+  exact key j ⟨j, Nat.le_refl _, hj⟩
+
+/-- a step other than the last parker's `park`, while no exit goal is current, keeps the goal, the
+requests and `gcDone` -/
+theorem nonlast_step_frame {c : Cfg} (hn : 0 < c.n) {s s' : State} {a : Act} (hr : Reachable c s) (hnx : NoExit s)
+    (hs : step c s a = some s') (hnl : ¬ IsLastPark c s (some a)) :
+    s'.current = s.current ∧ (s.reqGc = true → s'.reqGc = true) ∧ (s.reqShutdown = true → s'.reqShutdown = true) ∧
+    (s.reqFork = true → s'.reqFork = true) ∧ s'.gcDone = s.gcDone := by
+  have hE := (reachable_invE hn hr).2
+  by_cases hpk : ∃ w tag, a = .park w tag
+  · obtain ⟨w, tag, rfl⟩ := hpk
+    obtain ⟨hw, hpc, _, hcase⟩ := step_park_cases hs
+    rcases hcase with ⟨_, rfl⟩ | ⟨hl, _⟩
+    · exact ⟨rfl, id, id, id, rfl⟩
+    · exact absurd ⟨w, tag, rfl, hl⟩ hnl
+  have hsurrender : ∀ w, a ≠ .surrender w := by
+    intro w e; subst e
+    simp only [step] at hs
+    split at hs
+    · split at hs
+      · rename_i hg
+        obtain ⟨g, hg1, hg2⟩ := hE.exited w hg.1 hg.2
+        have := hnx g hg1; rw [this] at hg2; cases hg2
+      · cases hs
+    · cases hs
+  have hreq' : (s.reqGc = true → s'.reqGc = true) ∧ (s.reqShutdown = true → s'.reqShutdown = true) ∧
+      (s.reqFork = true → s'.reqFork = true) := by
+    rcases step_requests hs with h | h
+    · exact absurd h hpk
+    · exact h
+  have hcur : s'.current = s.current := by
+    rcases step_other_E c s s' a hs with h | ⟨w, rfl⟩ | ⟨w, rfl⟩ | rfl | ⟨hcur, _, _⟩
+    · exact absurd h hpk
+    · simp only [step] at hs
+      split at hs
+      · injection hs with hs; subst hs; rw [afterUnpark_current]
+      · cases hs
+    · exact absurd rfl (hsurrender w)
+    · simp only [step] at hs
+      split at hs
+      · split at hs
+        · injection hs with hs; subst hs; rfl
+        · cases hs
+      · cases hs
+    · exact hcur
+  have hgd : s'.gcDone = s.gcDone := by
+    rcases step_other c s s' a hs with h | ⟨h, _, _⟩
+    · exact absurd h hpk
+    · exact h
+  exact ⟨hcur, hreq'.1, hreq'.2.1, hreq'.2.2, hgd⟩
+
+/-- the last parker finds a Gc request and no current goal: it starts the Gc goal -/
+theorem step_lastpark_starts_gc {c : Cfg} {s s' : State} {w tag : Nat} (hs : step c s (.park w tag) = some s')
+    (hlast : s.parked + 1 = c.n) (hcur : s.current = none) (hreq : s.reqGc = true) :
+    s'.current = some .gc ∧ s'.gcDone = s.gcDone ∧ s'.gcStarted = s.gcStarted + 1 := by
+  obtain ⟨_, _, _, hcase⟩ := step_park_cases hs
+  rcases hcase with ⟨hnl, _⟩ | ⟨_, s1, r, hlp, he⟩
+  · exact absurd hlast hnl
+  · have h1 : s'.current = s1.current := by rw [he]
+    have h2 : s'.gcDone = s1.gcDone := by rw [he]
+    have h3 : s'.gcStarted = s1.gcStarted := by rw [he]
+    rw [h1, h2, h3]
+    unfold onLastParked at hlp
+    simp only [hcur] at hlp
+    unfold respond at hlp
+    simp only [hcur, hreq, Option.isSome_none, Bool.false_eq_true, if_false, if_true] at hlp
+    injection hlp with hlp; injection hlp with hl1 _; subst hl1
+    exact ⟨rfl, rfl, rfl⟩
+
+/-- a Gc request is pending or a Gc goal is current, no exit goal is current, every worker thread exists -/
+def GcPending (c : Cfg) (s : State) : Prop :=
+  (s.reqGc = true ∨ s.current = some .gc) ∧ NoExit s ∧ ∀ w, w < c.n → s.pc w ≠ .surrendered
+
+theorem GcPending.pending {c : Cfg} {s : State} (h : GcPending c s) : Pending c s := by
+  refine ⟨?_, h.2.1, h.2.2⟩
+  rcases h.1 with h | h
+  · left; simp [anyRequested, h]
+  · exact Or.inr h
+
+/-- **request → goal → completion** (core): from a pending Gc request or a Gc goal in progress, the run reaches
+a state where the Gc goal is current with `gcDone` still unchanged, and later `gcDone` changes -/
+theorem gc_request_completes {c : Cfg} {tr : Nat → State} {act : Nat → Option Act}
+    (hn : 0 < c.n) (hmut : c.mutAddOpen = false) (hu : c.unconIdx < c.L)
+    (R : FairRun c tr act) (hN : FiniteSpawn tr) (hE : FiniteEnv act) (hA : NoAssert c tr) (hP : GcPending c (tr 0)) :
+    ∃ j0, (tr j0).current = some .gc ∧ (∀ i, i ≤ j0 → (tr i).gcDone = (tr 0).gcDone) ∧
+      ∃ j, j0 ≤ j ∧ (tr j).gcDone ≠ (tr 0).gcDone := by
+  obtain ⟨jl, hjl⟩ := last_park_eventually hn hmut hu R hN hE hA hP.pending
+  obtain ⟨j0, hl0, hleast⟩ := exists_least (fun j => IsLastPark c (tr j) (act j)) ⟨jl, hjl.1⟩
+  -- up to the first last-park nothing happens to the request / the goal / `gcDone`
+  have hpre : ∀ i, i ≤ j0 → GcPending c (tr i) ∧ (tr i).gcDone = (tr 0).gcDone := by
+    intro i
+    induction i with
+    | zero => intro _; exact ⟨hP, rfl⟩
+    | succ i ih =>
+      intro hi
+      obtain ⟨hp, hg⟩ := ih (by omega)
+      cases ha : act i with
+      | none => rw [R.stutter_at ha]; exact ⟨hp, hg⟩
+      | some a =>
+        have hnl : ¬ IsLastPark c (tr i) (some a) := by rw [← ha]; exact hleast i (by omega)
+        obtain ⟨f1, f2, _, _, f5⟩ := nonlast_step_frame hn (R.reach i) hp.2.1 (R.step_at ha) hnl
+        have hp' := pending_step hn (R.reach i) hp.pending (R.step_at ha) hnl
+        refine ⟨⟨?_, hp'.2.1, hp'.2.2⟩, by rw [f5]; exact hg⟩
+        rcases hp.1 with h | h
+        · exact Or.inl (f2 h)
+        · exact Or.inr (by rw [f1]; exact h)
+  obtain ⟨hp0, hg0⟩ := hpre j0 (Nat.le_refl _)
+  obtain ⟨w, tag, hact, hlast⟩ := hl0
+  have hs := R.step_at hact
+  by_cases hc : (tr j0).current = some .gc
+  · -- the goal is already current at `j0`
+    obtain ⟨j, hj⟩ := gc_done_changes hn hmut hu (R.shift j0) (hN.shift j0) (hE.shift j0) (hA.shift j0) hp0.pending hc
+    exact ⟨j0, hc, fun i hi => (hpre i hi).2, j0 + j, by omega, by rw [← hg0]; exact hj⟩
+  · -- the last parker at `j0` starts it
+    have hreq : (tr j0).reqGc = true := by
+      rcases hp0.1 with h | h
+      · exact h
+      · exact absurd h hc
+    have hnone : (tr j0).current = none := by
+      cases hcu : (tr j0).current with
+      | none => rfl
+      | some g =>
+        have := hp0.2.1 g hcu
+        cases g
+        · exact absurd hcu hc
+        · cases this
+        · cases this
+    obtain ⟨hc1, hg1, _⟩ := step_lastpark_starts_gc hs hlast hnone hreq
+    have hnx1 : NoExit (tr (j0 + 1)) := by
+      intro g hgc; rw [hc1] at hgc; injection hgc with hgc; subst hgc; rfl
+    have hp1 : Pending c (tr (j0 + 1)) := by
+      refine ⟨Or.inr hc1, hnx1, fun x hx => ?_⟩
+      by_cases e : x = w
+      · subst e
+        rcases step_park_self hs with h | h | h <;> rw [h] <;> simp
+      · rcases step_park_other hs e with h | ⟨_, h⟩
+        · rw [h]; exact hp0.2.2 x hx
+        · rw [h]; simp
+    obtain ⟨j, hj⟩ := gc_done_changes hn hmut hu (R.shift (j0 + 1)) (hN.shift (j0 + 1)) (hE.shift (j0 + 1))
+      (hA.shift (j0 + 1)) hp1 hc1
+    refine ⟨j0 + 1, hc1, fun i hi => ?_, j0 + 1 + j, by omega, by rw [← hg0, ← hg1]; exact hj⟩
+    by_cases e : i ≤ j0
+    · exact (hpre i e).2
+    · have : i = j0 + 1 := by omega
+      subst this; rw [hg1]; exact hg0
+
 end Mmtk.Sched
